@@ -216,6 +216,11 @@ def _literal_term(node, tree=None):
     if isinstance(node, ast.Attribute) and isinstance(node.value, ast.Name) and node.value.id in ('math', 'np', 'numpy') \
             and node.attr in ('inf', 'pi', 'e', 'nan'):
         return ('attr', ('name', node.value.id), node.attr)
+    if isinstance(node, ast.Call) and isinstance(node.func, ast.Attribute) and isinstance(node.func.value, ast.Name) \
+            and (node.func.value.id, node.func.attr) == ('re', 'compile') and node.args and not node.keywords \
+            and all(isinstance(a, ast.Constant) for a in node.args):
+        # a compiled pattern is a value: re.compile(<constants>)
+        return ('call', ('attr', ('name', 're'), 'compile'), tuple(('const', a.value) for a in node.args), ())
     if isinstance(node, ast.Call) and isinstance(node.func, ast.Name) and node.func.id in ('frozenset', 'set', 'tuple') \
             and len(node.args) == 1 and not node.keywords:
         inner = _literal_term(node.args[0], tree)
@@ -266,7 +271,8 @@ def _literal_seq(t, limit=16):
     def lit(x):
         return x[0] == 'const' or (x[0] in ('tuple', 'list') and all(lit(y) for y in x[1])) or \
             (x[0] == 'dict' and all(k is not None and lit(k) and lit(v) for k, v in x[1])) or \
-            (x[0] == 'name') or (x[0] == 'call' and x[1][0] == 'name' and all(lit(y) for y in x[2]) and all(lit(v) for _, v in x[3]))
+            (x[0] == 'name') or (x[0] == 'call' and x[1][0] == 'name' and all(lit(y) for y in x[2]) and all(lit(v) for _, v in x[3])) or \
+            (x[0] == 'call' and x[1] == ('attr', ('name', 're'), 'compile') and all(lit(y) for y in x[2]))
     if t[0] in ('tuple', 'list') and 0 < len(t[1]) <= limit and all(lit(x) for x in t[1]) and not all(x[0] == 'name' for x in t[1]):
         return list(t[1])       # (a plain list of functions -- a registry -- is iterated, not unrolled)
     return None
@@ -369,6 +375,18 @@ def _expression_like(fd):
                 if any(isinstance(t, (ast.Subscript, ast.Attribute)) for t in tg):
                     return False
     return True
+
+
+def _is_closure(fd):
+    """defined inside another function (at any depth of its statements)"""
+    p = getattr(fd, '_parent', None)
+    while p is not None:
+        if isinstance(p, (ast.FunctionDef, ast.AsyncFunctionDef)):
+            return True
+        if isinstance(p, (ast.ClassDef, ast.Module)):
+            return False
+        p = getattr(p, '_parent', None)
+    return False
 
 
 def _loops_only(fd):
@@ -711,6 +729,11 @@ class SymExec(object):
                     return ('sub', args[0], args[1])
             if f == ('name', 'dict') and not args and kws and all(k is not None for k, _ in kws):
                 return ('dict', tuple((('const', k), v) for k, v in kws))      # dict(a=1) is {'a': 1}
+            if f in (('attr', ('name', 'chain'), 'from_iterable'), ('attr', ('attr', ('name', 'itertools'), 'chain'), 'from_iterable')) \
+                    and len(args) == 1 and not kws and args[0][0] in ('genexp', 'listcomp'):
+                # chain.from_iterable(E for t in T) yields what (x for t in T for x in E) yields
+                g_ = args[0]
+                return ('genexp', ('elem', g_[1], None), tuple(g_[2]) + ((g_[1], ()),))
             if f == ('name', 'list') and len(args) == 1 and not kws and args[0][0] in ('genexp', 'listcomp'):
                 return ('listcomp',) + args[0][1:]
             if f[0] == 'attr' and f[2] == 'get' and f[1][0] == 'dict' and 1 <= len(args) <= 2 and not kws \
@@ -905,7 +928,9 @@ class SymExec(object):
                     if isinstance(t, ast.Name):
                         seen[t.id] = seen.get(t.id, 0) + 1
                         lit = _literal_term(val, modtree)
-                        if lit is not None and not (lit[0] == 'name'):
+                        # (a compiled pattern bound to a name of its own stays that name: the rules know the
+                        # tokeniser / field regexes by their names; inside a table it is a value like any other)
+                        if lit is not None and not (lit[0] == 'name') and not (lit[0] == 'call' and lit[1] == ('attr', ('name', 're'), 'compile')):
                             consts[t.id] = lit
             for k, cnt in seen.items():
                 if cnt != 1:
@@ -1154,7 +1179,7 @@ class SymExec(object):
             return None
         if not _expression_like(fd) and not _loops_only(fd):
             return None
-        nested = isinstance(getattr(fd, '_parent', None), ast.FunctionDef)
+        nested = _is_closure(fd)
         sub = State()
         sub.env = dict(st.env) if nested else {k: v for k, v in st.env.items() if not isinstance(k, str) or '.' in k}
         sub.env.update(penv)
@@ -1304,7 +1329,7 @@ class SymExec(object):
             return
         t = ('call', f, tuple(args), kws)
         st.events.append(('call', t, call_node))
-        nested = isinstance(getattr(fd, '_parent', None), ast.FunctionDef)
+        nested = _is_closure(fd)
         caller_env = st.env
         cal = st.copy()
         cal.env = dict(caller_env) if nested else {k: v for k, v in caller_env.items() if not isinstance(k, str) or '.' in k}
@@ -1394,6 +1419,11 @@ class SymExec(object):
             for r in forked:
                 yield r
             return
+        hoisted = self._hoist_fork(s, st)
+        if hoisted is not None:
+            for r in hoisted:
+                yield r
+            return
         if isinstance(s, ast.Expr):
             v = self.ev(s.value, st)
             st.events.append(('expr', v, s))
@@ -1402,6 +1432,8 @@ class SymExec(object):
             if isinstance(s.value, (ast.List, ast.Dict, ast.Set)) and not getattr(s.value, 'elts', None) \
                     and not getattr(s.value, 'keys', None):
                 v = ('alloc', type(s.value).__name__.lower(), s.lineno)   # a fresh empty container
+                if getattr(s, '_alloc_tag', None):
+                    v = v + (s._alloc_tag,)      # statements the object pass placed on one line stay distinct
                 if v[1] == 'list':
                     st.data.setdefault('contents', {})[v] = ()
             else:
@@ -1577,6 +1609,58 @@ class SymExec(object):
         if results and results[0] is None:
             return None
         return self._after_fork(s, kind, neg, results)
+
+    def _hoist_fork(self, s, st):
+        """`f(h(a))` as a statement, where helper h has statements of its own (a guard that raises, a loop): run as
+        `tmp = h(a); f(tmp)` so that h's paths fork.  Only when everything evaluated before h(a) is free of effects."""
+        if not self.inline or not isinstance(s, (ast.Expr, ast.Assign, ast.Return)) or not isinstance(s.value, ast.Call):
+            return None
+        cached = getattr(s, '_hoist', None)
+        if cached is None:
+            outer = s.value
+            simple = lambda e: all(isinstance(n, (ast.Name, ast.Attribute, ast.Constant, ast.Load)) for n in ast.walk(e))
+            found = None
+            if simple(outer.func):
+                for i, a in enumerate(outer.args):
+                    if isinstance(a, ast.Call) and isinstance(a.func, ast.Name):
+                        found = i
+                        break
+                    if not simple(a):
+                        break
+            if found is None:
+                s._hoist = False
+                return None
+            import copy as _copy
+            tmp = '__hoisted_%d_%d' % (s.lineno, s.col_offset)
+            pre = ast.copy_location(ast.Assign(targets=[ast.copy_location(ast.Name(id=tmp, ctx=ast.Store()), s)], value=outer.args[found]), s)
+            post = _copy.copy(s)
+            call2 = _copy.copy(outer)
+            call2.args = list(outer.args)
+            call2.args[found] = ast.copy_location(ast.Name(id=tmp, ctx=ast.Load()), outer.args[found])
+            post.value = call2
+            post._hoist = False
+            pre._hoist = False
+            pre._parent = post._parent = getattr(s, '_parent', None)
+            cached = s._hoist = (pre, post)
+        if cached is False:
+            return None
+        pre, post = cached
+        probe = st.copy()
+        fd_ = self.resolve(self.ev(pre.value.func, probe), probe)
+        if fd_ is None or _expression_like(fd_) or not _forkable(fd_):
+            return None
+        first = self._stmt_fork(pre, st)
+        if first is None:
+            return None
+
+        def gen():
+            for st2, out in first:
+                if out != 'fall':
+                    yield st2, out
+                    continue
+                for r in self.stmt(post, st2):
+                    yield r
+        return gen()
 
     def _after_fork(self, s, kind, neg, results):
         for st2, out, val in results:
